@@ -141,7 +141,7 @@ func (g *Generator) generateWithRefs(t reflect.Type) *openapi3.Schema {
 	}
 
 	// For structs: use placeholder pattern.
-	typeName := getTypeName(t)
+	typeName := g.defName(t)
 	g.visited[t] = typeName
 
 	// Create placeholder.
@@ -159,6 +159,26 @@ func (g *Generator) generateWithRefs(t reflect.Type) *openapi3.Schema {
 		"$ref": "#/$defs/" + refToken(typeName),
 	}
 	return refSchema
+}
+
+// defName returns the $defs key for t: its readable type name, made unique when another type
+// (same package base name and type name, different import path) already holds that key.
+func (g *Generator) defName(t reflect.Type) string {
+	base := getTypeName(t)
+	name := base
+	for i := 2; ; i++ {
+		taken := false
+		for other, n := range g.visited {
+			if n == name && other != t {
+				taken = true
+				break
+			}
+		}
+		if !taken {
+			return name
+		}
+		name = fmt.Sprintf("%s_%d", base, i)
+	}
 }
 
 // generateStructSchemaWithRefs generates schema for a struct type with $ref support.
@@ -217,7 +237,7 @@ func (g *Generator) generateFieldSchemaWithRefs(t reflect.Type, field reflect.St
 			return refSchema
 		}
 		// Otherwise, generate and add to defs.
-		typeName := getTypeName(t)
+		typeName := g.defName(t)
 		g.visited[t] = typeName
 		placeholder := openapi3.NewObjectSchema()
 		g.defs[typeName] = placeholder
